@@ -630,7 +630,17 @@ static VVD hardLayout(int ndim, int n, int kind, double field)
   return x;
 }
 struct HardModel { ECov type; double nugget; const char* name; };
-static const HardModel HARD[4] = {{ECov::GAUSSIAN, 0., "gaussian"}, {ECov::CUBIC, 0., "cubic"}, {ECov::GAUSSIAN, 1e-10, "gaussian+nugget1e-10"}, {ECov::SPHERICAL, 0., "spherical(control)"}};
+// built on demand (the ECov constants are library statics: no copy at static-initialisation time)
+static HardModel hardModel(int k)
+{
+  switch (k)
+  {
+    case 0: return {ECov::GAUSSIAN, 0., "gaussian"};
+    case 1: return {ECov::CUBIC, 0., "cubic"};
+    case 2: return {ECov::GAUSSIAN, 1e-10, "gaussian+nugget1e-10"};
+    default: return {ECov::SPHERICAL, 0., "spherical(control)"};
+  }
+}
 
 static std::string rawClass(double raw, double c00)
 {
@@ -657,7 +667,7 @@ VF_PART(stdev_always_finite)
   for_each_case(C, sp, [&](uint64_t id, const std::vector<int>& ix) {
     int ndim = ix[0] + 1, kdrift = drifts[ix[2]], nmaxi = nmaxis[ix[3]], n = ns[ix[6]], kind = ix[7];
     double ratio = ratios[ix[1]], sill = sills[ix[4]], field = fields[ix[8]];
-    const HardModel& hm = HARD[ix[5]];
+    const HardModel hm = hardModel(ix[5]);
     std::string kase = std::to_string(id);
     char desc[320];
     snprintf(desc, sizeof desc, "ndim=%d n=%d layout=%s field=%g model=%s range=%g sill=%g drift=%s neigh=%s", ndim, n, kind ? "scattered+clusters" : "lattice", field, hm.name, ratio * field, sill,
@@ -717,7 +727,7 @@ VF_PART(stdev_always_finite)
           {
             if (ksys.estimate(t)) break;
             double s = dbo2->getArray(t, iS);
-            if (!FFFF(s)) raw[t] = ksys._var0.getValue(0, 0, false) - ksys._results.getValue(0, 0, false);
+            if (std::isnan(s) || !FFFF(s)) raw[t] = ksys._var0.getValue(0, 0, false) - ksys._results.getValue(0, 0, false);
           }
           ksys.conclusion();
         }
@@ -734,7 +744,7 @@ VF_PART(stdev_always_finite)
     {
       C.eval();
       std::string info = std::string(desc) + " target#" + std::to_string(t) + (onDatum[t] >= 0 ? (t < n ? " ON datum " : " next to datum ") + std::to_string(onDatum[t]) : std::string(" (free)"));
-      if (FFFF(est[t])) { C.skip(); C.outcome("estimate-undefined(TEST):not-judged"); continue; }
+      if (!std::isnan(est[t]) && FFFF(est[t])) { C.skip(); C.outcome("estimate-undefined(TEST):not-judged"); continue; }
       std::string cls = std::string(drift_known_mean(kdrift) ? "known-mean" : "drift") + ":" + (nmaxi ? "moving" : "unique");
       if (!FFFF(raw[t]))
       {
@@ -743,12 +753,13 @@ VF_PART(stdev_always_finite)
         if (raw[t] <= 0) touched = true;
       }
       bool ok = true;
-      if (FFFF(sd[t])) { C.violation("always:stdev-undefined-with-defined-estimate:" + cls, "estimate " + fmt(est[t]) + " is defined but stdev is the undefined value; " + info, kase); ok = false; }
-      else if (std::isnan(sd[t])) { C.violation("always:stdev-NaN:" + cls, "stdev is NaN (estimate " + fmt(est[t]) + ", raw variance " + fmt(raw[t]) + " = " + fmt(raw[t] / c00) + " x C00); " + info, kase); ok = false; }
+      // NaN first: the library's FFFF() also answers true for NaN
+      if (std::isnan(sd[t])) { C.violation("always:stdev-NaN:" + cls, "stdev is NaN (estimate " + fmt(est[t]) + ", raw variance " + fmt(raw[t]) + " = " + fmt(raw[t] / c00) + " x C00); " + info, kase); ok = false; }
+      else if (FFFF(sd[t])) { C.violation("always:stdev-undefined-with-defined-estimate:" + cls, "estimate " + fmt(est[t]) + " is defined but stdev is the undefined value; " + info, kase); ok = false; }
       else if (std::isinf(sd[t])) { C.violation("always:stdev-infinite:" + cls, "stdev is infinite (estimate " + fmt(est[t]) + "); " + info, kase); ok = false; }
       else if (sd[t] < 0) { C.violation("always:stdev-negative:" + cls, "stdev = " + fmt(sd[t]) + " < 0; " + info, kase); ok = false; }
-      if (!FFFF(vz[t]) && !std::isfinite(vz[t])) { C.violation("always:varz-not-finite:" + cls, "varz = " + fmt(vz[t]) + "; " + info, kase); ok = false; }
-      if (FFFF(vz[t])) { C.violation("always:varz-undefined-with-defined-estimate:" + cls, "estimate " + fmt(est[t]) + " is defined but varz is the undefined value; " + info, kase); ok = false; }
+      if (std::isnan(vz[t]) || (!FFFF(vz[t]) && !std::isfinite(vz[t]))) { C.violation("always:varz-not-finite:" + cls, "varz = " + fmt(vz[t]) + "; " + info, kase); ok = false; }
+      if (!std::isnan(vz[t]) && FFFF(vz[t])) { C.violation("always:varz-undefined-with-defined-estimate:" + cls, "estimate " + fmt(est[t]) + " is defined but varz is the undefined value; " + info, kase); ok = false; }
       if (ok && drift_known_mean(kdrift))
       {
         // neighbours: all samples (unique) or krigtest (moving)
